@@ -141,9 +141,9 @@ def sqlalchemy(class_def, parse_original_whitespace=False):
         type(class_def).__name__
     )
 
-    return sqlalchemy_table(
-        sqlalchemy_class_to_table(class_def, parse_original_whitespace)
-    )
+    table = sqlalchemy_class_to_table(class_def, parse_original_whitespace)
+    # Hybrid: `__table__ = Table("name", …)`; the binding is not the table name
+    return sqlalchemy_table(table.value if isinstance(table, Assign) else table)
 
 
 # Separate function to get a new docstring + as mirror to `emit.sqlalchemy_hybrid`
